@@ -24,7 +24,7 @@ func vsSpan(k int) (*trace.Span, map[string]string) {
 	sv := vrt.String("attr-string", 1)
 	sp.Attributes = append(sp.Attributes, &v11.KeyValue{Key: "s" + tag, Value: vsStr(sv)})
 	want["s"+tag] = sv
-	switch vrt.Choice("extra-attribute-kind", 3) {
+	switch vrt.Choice("extra-attribute-kind", 4) {
 	case 1:
 		sp.Attributes = append(sp.Attributes, &v11.KeyValue{Key: "b" + tag, Value: &v11.AnyValue{Value: &v11.AnyValue_BoolValue{BoolValue: true}}})
 		want["b"+tag] = "true"
@@ -32,6 +32,16 @@ func vsSpan(k int) (*trace.Span, map[string]string) {
 		nested := &v11.KeyValueList{Values: []*v11.KeyValue{{Key: "in", Value: vsStr("x" + tag)}}}
 		sp.Attributes = append(sp.Attributes, &v11.KeyValue{Key: "m" + tag, Value: &v11.AnyValue{Value: &v11.AnyValue_KvlistValue{KvlistValue: nested}}})
 		want["m"+tag+".in"] = "x" + tag
+	case 3:
+		// a map nested in a map, next to a top-level map whose flattened key would collide with the inner path
+		inner := &v11.KeyValueList{Values: []*v11.KeyValue{{Key: "method", Value: vsStr("G" + tag)}}}
+		outer := &v11.KeyValueList{Values: []*v11.KeyValue{{Key: "request", Value: &v11.AnyValue{Value: &v11.AnyValue_KvlistValue{KvlistValue: inner}}}}}
+		top := &v11.KeyValueList{Values: []*v11.KeyValue{{Key: "method", Value: vsStr("T" + tag)}}}
+		sp.Attributes = append(sp.Attributes,
+			&v11.KeyValue{Key: "http" + tag, Value: &v11.AnyValue{Value: &v11.AnyValue_KvlistValue{KvlistValue: outer}}},
+			&v11.KeyValue{Key: "request", Value: &v11.AnyValue{Value: &v11.AnyValue_KvlistValue{KvlistValue: top}}})
+		want["http"+tag+".request.method"] = "G" + tag
+		want["request.method"] = "T" + tag
 	}
 	return sp, want
 }
